@@ -341,9 +341,20 @@ fn main() {
 			alphabet: alphabet[..alphabet.len().min(if thorough { 4 } else { 3 })].to_vec(),
 		};
 		h.go(&sys, &Limits::depth(20).wall_secs(300), true);
+		// rounding-active values of mixed magnitudes: a restored instance that sums the same window in
+		// another order differs in the last bit
+		let sys = SnapSys {
+			name: format!("{name}/snapshot-at-every-state/mixed-magnitudes"),
+			spec_name: name,
+			params: small_params(&sp),
+			pre_depth: if thorough { |p| (2 * span(p) as u32 + 2).min(7) } else { |p| (2 * span(p) as u32 + 2).min(5) },
+			alphabet: checks::grid::mixed(sp.input)[..3].to_vec(),
+		};
+		h.go(&sys, &Limits::depth(20).wall_secs(300), true);
 	}
 	let ks = alpha::k_candles();
 	h.go(&ISnapSys { cfgs: indicator_configs(false), alphabet: ks[..4].to_vec(), pre: if thorough { 5 } else { 3 }, tag: "default+small".into() }, &Limits::depth(20).wall_secs(600), true);
+	h.go(&ISnapSys { cfgs: indicator_configs(false), alphabet: checks::grid::mixed_candles(), pre: if thorough { 5 } else { 3 }, tag: "default+small/mixed-magnitudes".into() }, &Limits::depth(20).wall_secs(600), true);
 	if thorough {
 		h.go(&ISnapSys { cfgs: indicator_configs(true), alphabet: ks[..3].to_vec(), pre: 3, tag: "ma-kinds".into() }, &Limits::depth(20).wall_secs(900), true);
 	}
